@@ -212,6 +212,8 @@ def _collect(fi, inline_depth=60, keep=()):
                 effects.append(Effect('return', list(ctx), None, inl(s.value, s) if s.value is not None else None, s))
             elif isinstance(s, ast.Raise):
                 effects.append(Effect('raise', list(ctx), None, None, s))
+            elif isinstance(s, ast.Assert):
+                effects.append(Effect('assert', list(ctx), None, inl(s.test, s), s))
             elif isinstance(s, (ast.Break, ast.Continue)):
                 effects.append(Effect(type(s).__name__.lower(), list(ctx), None, None, s))
             elif isinstance(s, ast.Assign):
